@@ -7,6 +7,7 @@
 #
 # @author Davide Brunato <brunato@sissa.it>
 #
+import re
 from decimal import Decimal
 from math import isinf, isnan
 from typing import Optional, SupportsInt, SupportsFloat, TYPE_CHECKING, Union
@@ -18,6 +19,8 @@ from xmlschema.aliases import ElementType, SchemaType
 from xmlschema.exceptions import XMLSchemaValueError
 from xmlschema.translation import gettext as _
 from .exceptions import XMLSchemaValidationError
+
+INTEGER_PATTERN = re.compile(r'[+-]?[0-9]+')
 
 if TYPE_CHECKING:
     from xmlschema.validators import XsdAnnotation, XsdComponent  # noqa: F401
@@ -270,6 +273,20 @@ def boolean_to_python(value: str) -> bool:
         return XSD_BOOLEAN_MAP[value]
     except KeyError:
         raise XMLSchemaValueError(_('{!r} is not a boolean value').format(value))
+
+
+def integer_to_python(value: Union[SupportsInt, str]) -> int:
+    result = int(value)
+    if isinstance(value, str) and INTEGER_PATTERN.fullmatch(value.strip()) is None:
+        # int() accepts also underscores and non-ASCII digits
+        raise XMLSchemaValueError(_('{!r} is not an xs:integer value').format(value))
+    return result
+
+
+def decimal_to_python(value: Union[Decimal, int, float, str]) -> Decimal:
+    if isinstance(value, str) and ' ' in value.strip():
+        raise XMLSchemaValueError(_('{!r} is not an xs:decimal value').format(value))
+    return datatypes.DecimalProxy(value)
 
 
 def python_to_boolean(value: object) -> str:
